@@ -52,6 +52,9 @@ META["rule"] += (
 META["rule"] += (
     " " + 'Added after the fifth round: records of 515 and 1027 (thorough 2051) samples, both graph types, against an exact O(n^2) integer reference; the horizontal / missing_values switches as bool / np.bool_ / int / np.int64.')
 
+META["rule"] += (
+    " " + 'Added after the sixth round: series held as float32 when exact and in strided / reversed / column layouts; 30 % of the affine relations change the units by 2^+-60 .. 2^+-90 (values) with 2^+-30 .. 2^+-50 (times), same direction.')
+
 def _eq(a, b):
     a = np.asarray(a, dtype=float)
     b = np.asarray(b, dtype=float)
@@ -81,7 +84,30 @@ def check_series(ctx, VG, x, t, horizontal, missing, cid, relations=True,
     as_flag = [bool, bool, np.bool_, int, np.int64][int(rf.integers(0, 5))]
     if as_flag is not bool:
         ctx.count("switches_not_python_bool")
-    ok, g = ctx.call(VG, np.array(x, dtype=dtype),
+    # the series in the numeric type and memory layout a caller may hold it
+    # in: float32 when every value is exactly representable, and contiguous,
+    # every second element of a buffer, a reversed view, or a column of a
+    # [time, node] array
+    xa = np.array(x, dtype=dtype)
+    if dtype is float and rf.random() < 0.3:
+        x32 = xa.astype(np.float32)
+        if np.array_equal(x32.astype(float), xa, equal_nan=True):
+            xa = x32
+            ctx.count("series_held_as_float32")
+    lay = int(rf.integers(0, 5))
+    if lay == 1:
+        big = np.full(2 * n, 77, dtype=xa.dtype)
+        big[::2] = xa
+        xa = big[::2]
+    elif lay == 2:
+        xa = xa[::-1].copy()[::-1]
+    elif lay == 3:
+        big = np.full((n, 3), 77, dtype=xa.dtype)
+        big[:, 1] = xa
+        xa = big[:, 1]
+    if lay in (1, 2, 3):
+        ctx.count("series_held_in_a_strided_layout")
+    ok, g = ctx.call(VG, xa,
                      timings=None if t is None else np.array(t, dtype=float),
                      missing_values=as_flag(missing),
                      horizontal=as_flag(horizontal), silence_level=3)
@@ -172,6 +198,16 @@ def check_series(ctx, VG, x, t, horizontal, missing, cid, relations=True,
     b = float(r.integers(-8, 9))
     c = float(2.0 ** r.integers(-2, 3))
     d0 = float(r.integers(-8, 9))
+    if r.random() < 0.3:
+        # other units by many orders of magnitude (exact powers of two, well
+        # inside the single-precision range): the criterion knows no scale
+        # (values and times scaled in the same direction: the slopes,
+        #  which scale with a / c, stay far from the limits of the range)
+        ea, ec = [(-90, -50), (-60, -30), (60, 30), (80, 50)][
+            int(r.integers(0, 4))]
+        a, c = float(2.0 ** ea), float(2.0 ** ec)
+        b, d0 = b * a, d0 * c
+        ctx.count("affine_by_orders_of_magnitude")
     x2 = [a * v + b for v in x]
     t2 = [c * v + d0 for v in tt]
     ok, g2 = ctx.call(VG, np.array(x2), timings=np.array(t2),
